@@ -254,6 +254,9 @@ pub struct Spec1<T> {
     /// memory layout of the `Individual` boundary array; None: derived from the case's bits
     pub bounds_lay: Option<Layout>,
     pub sto: StoCombo,
+    /// construct with `new_unchecked` instead of the builder (valid inputs, explicit axis,
+    /// strategies that are their own finished strategy only)
+    pub ctor_unchecked: bool,
 }
 
 impl<T: Flt> Spec1<T> {
@@ -268,6 +271,7 @@ impl<T: Flt> Spec1<T> {
             x_lay: Layout::c(1),
             bounds_lay: None,
             sto: StoCombo::OO,
+            ctor_unchecked: false,
         }
     }
     pub fn dynamic(mut self, d: bool) -> Self {
@@ -312,6 +316,8 @@ pub struct Spec2<T> {
     /// x and y are views into this one table that start at the same element: x = table[..nx]
     /// (stride 1), y = every second element (stride 2). Only used with view storage (VV).
     pub alias_table: Option<Array1<T>>,
+    /// construct with `new_unchecked` instead of the builder (valid inputs, explicit axes)
+    pub ctor_unchecked: bool,
 }
 
 impl<T: Flt> Spec2<T> {
@@ -328,6 +334,7 @@ impl<T: Flt> Spec2<T> {
             y_lay: Layout::c(1),
             sto: StoCombo::OO,
             alias_table: None,
+            ctor_unchecked: false,
         }
     }
     pub fn dynamic(mut self, d: bool) -> Self {
